@@ -26,7 +26,7 @@ ASSUMPTIONS = ["the reference model (vf/model.py) states the declared constraint
                "leaves open are not judged", "declared defaults are generated in normal form (the property is "
                "conditional on valid defaults)", "FilenameField(exists=...) is judged against a fixture tree no "
                "operation modifies"]
-EXCLUDED = ["assigning a Config of a different schema", "K5 parameter combinations (strip characters that are cased "
+EXCLUDED = ["K5 parameter combinations (strip characters that are cased "
             "letters together with a case transform): validation is not idempotent there (known finding of C05)"]
 SHRINK_KEY = "ops"
 
